@@ -625,3 +625,75 @@ Proof.
   intros Hn. unfold bphp_spec_ir. destruct (m =? 0); [reflexivity|]. destruct (Z.eqb_spec n 0); [reflexivity|].
   apply bphp_ok. lia.
 Qed.
+
+(* ---------- rphp: one assignment per object ---------- *)
+Theorem rphp_unique a b m r n : 0 <= m -> 0 <= r -> 0 <= n ->
+  (forall u v, 1 <= u <= m -> 1 <= v <= r -> rphp_P a r u v = rphp_P b r u v) ->
+  (forall v w, 1 <= v <= r -> 1 <= w <= n -> rphp_Q a m r n v w = rphp_Q b m r n v w) ->
+  (forall v, 1 <= v <= r -> rphp_S a m r n v = rphp_S b m r n v) ->
+  forall x, 1 <= x <= rphp_numvar m r n -> a x = b x.
+Proof.
+  intros Hm Hr Hn HP HQ HS x Hx. unfold rphp_numvar in Hx.
+  destruct (Z.le_gt_cases x (m * r)) as [H1|H1].
+  - destruct (bvar_surj 0 m r x) as (u & v & Hu & Hv & ->); try lia. now apply HP.
+  - destruct (Z.le_gt_cases x (m * r + r * n)) as [H2|H2].
+    + destruct (bvar_surj (m * r) r n x) as (v & w & Hv & Hw & ->); try lia. now apply HQ.
+    + specialize (HS (x - m * r - r * n) ltac:(lia)). unfold rphp_S, rr in HS.
+      replace (m * r + r * n + (x - m * r - r * n)) with x in HS by lia. exact HS.
+Qed.
+
+(* ---------- bphp: one assignment per object ---------- *)
+Lemma bits_value_inj a b K i : forall k, bits_value a K i k = bits_value b K i k ->
+  forall t, 0 <= t < Z.of_nat k -> a (bitvar K i t) = b (bitvar K i t).
+Proof.
+  induction k as [|k IH]; intros E t Ht; [lia|]. cbn [bits_value] in E.
+  pose proof (bits_value_range a K i k) as Ba. pose proof (bits_value_range b K i k) as Bb.
+  assert (0 < 2 ^ Z.of_nat k) as HP by (apply Z.pow_pos_nonneg; lia).
+  assert (a (bitvar K i (Z.of_nat k)) = b (bitvar K i (Z.of_nat k)) /\ bits_value a K i k = bits_value b K i k) as [E1 E2].
+  { destruct (a (bitvar K i (Z.of_nat k))), (b (bitvar K i (Z.of_nat k))); split; try reflexivity; lia. }
+  destruct (Z.eq_dec t (Z.of_nat k)) as [->|Hne]; [exact E1|]. apply IH; [exact E2|lia].
+Qed.
+
+Theorem bphp_unique a b m n : 0 <= m -> 1 <= n ->
+  (forall i, 1 <= i <= m -> bphp_hole a n i = bphp_hole b n i) ->
+  forall v, 1 <= v <= bphp_numvar m n -> a v = b v.
+Proof.
+  intros Hm Hn H v Hv. unfold bphp_numvar in Hv. destruct (bphp_bits_spec n Hn) as [HK _].
+  set (K := bphp_bits n) in *.
+  assert (0 < K) as HK0 by (destruct (Z.eq_dec K 0) as [E|E]; [rewrite E in Hv; lia|lia]).
+  pose proof (Z.div_mod (v - 1) K ltac:(lia)) as Edm. pose proof (Z.mod_pos_bound (v - 1) K HK0) as Bm.
+  pose proof (Z.div_pos (v - 1) K ltac:(lia) HK0) as Hq.
+  assert ((v - 1) / K < m) as Hqm by (apply Z.div_lt_upper_bound; lia).
+  set (i := (v - 1) / K + 1). set (t := K - 1 - (v - 1) mod K).
+  assert (v = bitvar K i t) as Ev by (unfold bitvar, i, t; lia). rewrite Ev.
+  specialize (H i ltac:(unfold i; lia)). unfold bphp_hole in H. fold K in H.
+  apply (bits_value_inj a b K i (Z.to_nat K) H). unfold t. lia.
+Qed.
+
+(* ---------- the formulas mention the documented variables only ---------- *)
+Lemma php_in_range m n f o : irs_in_range (php_numvar m n) (php_ir m n f o).
+Proof.
+  unfold php_ir, php_numvar.
+  assert (C1 : irs_in_range (m * n) (cm_complete 0 m n)).
+  { apply irs_in_range_map. intros i x Hi Hx. apply In_upto in Hi. cbn [ir_lits] in Hx.
+    pose proof (blk_row_range 0 m n i x ltac:(lia) Hi Hx). lia. }
+  assert (C2 : irs_in_range (m * n) (cm_surjective 0 m n)).
+  { apply irs_in_range_map. intros j x Hj Hx. apply In_upto in Hj. cbn [ir_lits] in Hx.
+    pose proof (blk_col_range 0 m n j x ltac:(lia) Hj Hx). lia. }
+  assert (C3 : irs_in_range (m * n) (cm_injective 0 m n)).
+  { apply irs_in_range_map. intros j x Hj Hx. apply In_upto in Hj. cbn [ir_lits] in Hx.
+    pose proof (blk_col_range 0 m n j x ltac:(lia) Hj Hx). lia. }
+  assert (C4 : irs_in_range (m * n) (cm_functional 0 m n)).
+  { apply irs_in_range_map. intros i x Hi Hx. apply In_upto in Hi. cbn [ir_lits] in Hx.
+    pose proof (blk_row_range 0 m n i x ltac:(lia) Hi Hx). lia. }
+  repeat apply irs_in_range_app; auto; [destruct o|destruct f]; auto using irs_in_range_nil.
+Qed.
+Lemma gphp_in_range adj R f o : irs_in_range (gphp_numvar adj) (gphp_ir adj R f o).
+Proof.
+  unfold gphp_ir, gphp_numvar. cbv zeta.
+  assert (C : forall (g : Z -> ir) l, (forall y, exists p, ir_lits (g y) = ids_where p (gphp_tab adj)) ->
+              irs_in_range (len (bip_index adj)) (map g l)).
+  { intros g l Hg. apply irs_in_range_map. intros y x _ Hx. destruct (Hg y) as [p Ep]. rewrite Ep in Hx.
+    now apply ids_where_range in Hx. }
+  repeat apply irs_in_range_app; [| destruct o | | destruct f]; try apply irs_in_range_nil; apply C; intros y; eexists; reflexivity.
+Qed.
